@@ -106,6 +106,12 @@ class Body:
         return self.reachable(0) - seen
 
     def has_loop(self):
+        if getattr(self, '_has_loop', None) is not None:
+            return self._has_loop
+        self._has_loop = self._compute_has_loop()
+        return self._has_loop
+
+    def _compute_has_loop(self):
         color = {}
         def dfs(u):
             color[u] = 1
